@@ -23,7 +23,8 @@ COMPONENTS_BASE = {
 
 def components(stubs):
     c = copy.deepcopy(COMPONENTS_BASE)
-    c["stub"] = list(stubs)
+    c["stub"] = list(stubs) + ["gzip / xzopen / ZipFile names inside the line readers and the yielder factory -> the real codecs wrapped "
+                               "(armed read faults reach compressed sources; a reader on a foreign thread stalls)"]
     return c
 
 
